@@ -8,9 +8,10 @@ CONSTANTS
   Styles = {"fresh"}
   MaxPos = 0
   MaxSteps = 99
-  NullRule = TRUE
+  Forms = {"null"}
+  Carriers = {"plain"}
   Slice = 0
   NSlices = 1
 SPECIFICATION Spec
-INVARIANTS TypeOK InjectionIsRejected EmptyRuleIsRejected ValidIsAccepted Diff Emit
+INVARIANTS TypeOK InjectionIsRejected EmptyRuleIsRejected SecondDocumentIsRejected ValidIsAccepted Diff Emit
 CHECK_DEADLOCK FALSE
